@@ -2,40 +2,38 @@
 // Solver counter-example(s) produced by Kani's concrete playback; replay with
 //   ./check C10 --replay /verif/replay/cases/c10__q__u8___copy_lengths.rs
 
-// failed check (assertion): assertion failed: d.get(q) == ref_get_u8 (& src, w, from + q - to)
+// failed check (assertion): attempt to shift left with overflow
 #[test]
-fn kani_concrete_playback_copy_lengths_11846378742018836070() {
+fn kani_concrete_playback_copy_lengths_1355035502844398751() {
     let concrete_vals: Vec<Vec<u8>> = vec![
-        // 107
-        vec![107],
-        // 133
-        vec![133],
-        // 146
-        vec![146],
-        // 205
-        vec![205],
-        // 12
-        vec![12],
-        // 85
-        vec![85],
-        // 201
-        vec![201],
-        // 204
-        vec![204],
+        // 33
+        vec![33],
+        // 129
+        vec![129],
+        // 68
+        vec![68],
+        // 240
+        vec![240],
+        // 126
+        vec![126],
+        // 51
+        vec![51],
+        // 41
+        vec![41],
+        // 243
+        vec![243],
+        // 8ul
+        vec![8, 0, 0, 0, 0, 0, 0, 0],
         // 1ul
         vec![1, 0, 0, 0, 0, 0, 0, 0],
-        // 23ul
-        vec![23, 0, 0, 0, 0, 0, 0, 0],
-        // 17ul
-        vec![17, 0, 0, 0, 0, 0, 0, 0],
-        // 2ul
-        vec![2, 0, 0, 0, 0, 0, 0, 0],
-        // 3ul
-        vec![3, 0, 0, 0, 0, 0, 0, 0],
-        // 14ul
-        vec![14, 0, 0, 0, 0, 0, 0, 0],
-        // 14ul
-        vec![14, 0, 0, 0, 0, 0, 0, 0],
+        // 1ul
+        vec![1, 0, 0, 0, 0, 0, 0, 0],
+        // 0ul
+        vec![0, 0, 0, 0, 0, 0, 0, 0],
+        // 0ul
+        vec![0, 0, 0, 0, 0, 0, 0, 0],
+        // 1ul
+        vec![1, 0, 0, 0, 0, 0, 0, 0],
     ];
     kani::concrete_playback_run(concrete_vals, crate::c10::q::u8_::copy_lengths);
 }
